@@ -52,3 +52,43 @@ package edge
 //@   trusted
 //@   modifies nothing
 //@   ensures result != nil
+
+// ---------------------------------------------------------------- grouped.go (C06)
+
+//@ func (GroupedReceiver).NewGroup
+//@   trusted
+//@   modifies nothing
+//@   ensures result1 == nil ==> result0 != nil
+//@ func (GroupInfoer).GroupInfo
+//@   trusted
+//@   pure
+//@ func (Receiver).Point
+//@   trusted
+//@ func (Receiver).Barrier
+//@   trusted
+
+//@ spec gcOK(c *groupedConsumer) bool = c != nil && c.groups != nil && c.gr != nil && c.cardinality != nil
+//@     && (forall k models.GroupID :: has(c.groups, k) ==> c.groups[k] != nil)
+
+// One receiver per group id: an existing id gets its existing receiver (no new group state is
+// created), a new id gets exactly one NewGroup call, no other id's receiver changes.
+//@ func (*groupedConsumer).getOrCreateGroup
+//@   props C06 C05
+//@   requires gcOK(c)
+//@   modifies map(c.groups)
+//@   ensures old(has(c.groups, group.ID)) ==> result1 == nil && result0 == old(c.groups[group.ID]) && !called(NewGroup)
+//@   ensures !old(has(c.groups, group.ID)) ==> called(NewGroup)
+//@   ensures result1 == nil ==> has(c.groups, group.ID) && c.groups[group.ID] == result0 && result0 != nil
+//@   ensures forall k models.GroupID :: k != group.ID ==> has(c.groups, k) == old(has(c.groups, k)) && (has(c.groups, k) ==> c.groups[k] == old(c.groups[k]))
+//@   ensures result1 != nil ==> !has(c.groups, group.ID)
+
+// A point is handed to the receiver registered for its own group id, and to no other.
+//@ func (*groupedConsumer).Point
+//@   props C06 C05
+//@   requires gcOK(c) && p != nil
+//@   guardcall Point#1: has(c.groups, p.GroupInfo().ID) && r == c.groups[p.GroupInfo().ID]
+
+//@ func (*groupedConsumer).Barrier
+//@   props C06 C05
+//@   requires gcOK(c) && b != nil
+//@   guardcall Barrier#1: has(c.groups, b.GroupInfo().ID) && r == c.groups[b.GroupInfo().ID]
